@@ -84,40 +84,51 @@ class BadWord(ValueError):
     pass
 
 
+def place(xs, ys, i, c):
+    """Insert pin number i, described by the letter c, into the x-order xs and the y-order ys (in
+    place).  Raises BadWord if the letter cannot be placed as described."""
+    if c in QUADS:
+        if c in "14":
+            xs.append(i)
+        else:
+            xs.insert(0, i)
+        if c in "12":
+            ys.append(i)
+        else:
+            ys.insert(0, i)
+        return
+    if c not in DIRS:
+        raise BadWord("letter %r" % c)
+    prev = i - 1
+    if prev == 0:
+        raise BadWord("direction letter first")
+    # the axis on which the new pin lies *between* prev and everything earlier
+    between, beyond = (xs, ys) if c in VERT else (ys, xs)
+    pos = between.index(prev)
+    if pos == len(between) - 1:
+        between.insert(pos, i)          # prev is the largest: new pin just below it
+    elif pos == 0:
+        between.insert(1, i)            # prev is the smallest: new pin just above it
+    else:
+        raise BadWord("previous pin cannot be separated from the earlier points by %r" % c)
+    if c in "UR":
+        beyond.append(i)
+    else:
+        beyond.insert(0, i)
+
+
 def decode(w):
     """(xs, ys): point ids 0..n sorted by x and by y.  Raises BadWord if a letter cannot be
     placed as described."""
     xs, ys = [0], [0]
     for i, c in enumerate(w, start=1):
-        if c in QUADS:
-            if c in "14":
-                xs.append(i)
-            else:
-                xs.insert(0, i)
-            if c in "12":
-                ys.append(i)
-            else:
-                ys.insert(0, i)
-            continue
-        if c not in DIRS:
-            raise BadWord("letter %r" % c)
-        prev = i - 1
-        if prev == 0:
-            raise BadWord("direction letter first")
-        # the axis on which the new pin lies *between* prev and everything earlier
-        between, beyond = (xs, ys) if c in VERT else (ys, xs)
-        pos = between.index(prev)
-        if pos == len(between) - 1:
-            between.insert(pos, i)          # prev is the largest: new pin just below it
-        elif pos == 0:
-            between.insert(1, i)            # prev is the smallest: new pin just above it
-        else:
-            raise BadWord("previous pin cannot be separated from the earlier points by %r" % c)
-        if c in "UR":
-            beyond.append(i)
-        else:
-            beyond.insert(0, i)
+        place(xs, ys, i, c)
     return xs, ys
+
+
+def perm_from_orders(xs, ys):
+    yr = {pid: k for k, pid in enumerate(p for p in ys if p != 0)}
+    return tuple(yr[p] for p in xs if p != 0)
 
 
 def ranks(order):
@@ -305,20 +316,24 @@ def contains_perm(big, small):
 
 def pin_words_of_perm(perm):
     """All pin words whose permutation is perm: letter by letter; a prefix of a pin word of perm
-    describes some of its pins, so its permutation must be contained in perm."""
+    describes some of its pins, so its permutation must be one of the patterns of perm (all
+    2^n sub-sequences, standardised)."""
     perm = tuple(perm)
+    pats = patterns_of(perm)
+    n = len(perm)
     res = []
 
-    def extend(word):
-        if len(word) == len(perm):
-            if perm_of(word) == perm:
-                res.append(word)
+    def extend(word, xs, ys):
+        if len(word) == n:
+            res.append(word)
             return
         for c in ALPHABET:
             nxt = word + c
             if not is_pinword(nxt):
                 continue
-            if len(nxt) == len(perm) or contains_perm(perm, perm_of(nxt)):
-                extend(nxt)
-    extend("")
+            xs2, ys2 = list(xs), list(ys)
+            place(xs2, ys2, len(nxt), c)
+            if perm_from_orders(xs2, ys2) in pats:
+                extend(nxt, xs2, ys2)
+    extend("", [0], [0])
     return res
